@@ -848,6 +848,11 @@ async fn run_c13_async(plan: C13Plan, sched: Sched, record: bool) -> Outcome {
         if peer_finished && l.written.len() == sent_by_peer.len() && l.shutdown_calls == 0 {
             o.violate("C13:peer-finish-not-propagated", format!("the peer finished and all its data was written locally but the local side was never shut down; {desc}"));
         }
+        // what the peer pushed must reach the local side, not sit in a buffering writer while the
+        // bridge waits for something else: everything written is flushed before the bridge goes idle
+        if !(l.read_err || l.write_err || l.flush_err || l.shutdown_err) && l.flushed < l.written.len() {
+            o.violate("C13:unflushed-local-data", format!("the bridge is idle at quiescence with {} of {} bytes written to the local side never flushed (a buffering local writer would not have delivered them); {desc}", l.written.len() - l.flushed, l.written.len()));
+        }
         o.probe("bridge-legitimately-pending", 1);
     }
     if l.read_err {
